@@ -86,6 +86,7 @@ struct Side
 	int64_t received = 0;
 	bool eof = false, reader_dead = false;
 	std::vector<uint8_t> rbuf[3];
+	std::unique_ptr<asio::high_resolution_timer> shadow;
 	ReadSpec cur_r;
 	// close bookkeeping
 	bool closed_by_us = false;
@@ -123,6 +124,8 @@ struct Tcp
 	uint64_t step_cap = 0;
 	bool capped = false, livelock = false;
 	int mtuAB = 1475;
+	struct ConnAttempt { int conn, port, gen; bool done; };
+	std::vector<ConnAttempt> cattempts; // every async_connect issued, to tell an answered connect that never completes
 	bool connect_done[k_max_conns] = {false, false, false};
 	error_code connect_ec[k_max_conns];
 	bool accept_done[k_max_conns] = {false, false, false};
@@ -212,6 +215,31 @@ struct Tcp
 		ctx.hit("handoff");
 	}
 
+	// an application timer armed for the very instant at which the first queue on the sender's route is going to forward
+	// the segment just written, and re-armed at the next write: timers of the application and of the library live in one
+	// queue, ordered by expiry, and taking one out must not take out another
+	int64_t shadow_delay(int side)
+	{
+		ip::address const me = side == 0 ? addrA : addrB, peer_a = side == 0 ? addrB : addrA;
+		std::vector<HopSpec> route = net.out_spec[me];
+		auto const ps = net.pair_spec.find({addrA, addrB});
+		if (ps != net.pair_spec.end()) route.insert(route.end(), ps->second.begin(), ps->second.end());
+		auto const& in = net.in_spec[peer_a];
+		route.insert(route.end(), in.begin(), in.end());
+		for (auto const& h : route) if (h.kind == HopSpec::Queue) return h.lat_ns;
+		return 0;
+	}
+	void arm_shadow(Side& s)
+	{
+		if (!plan.c("shadow_timer", 0)) return;
+		int64_t const d = shadow_delay(s.side);
+		if (d <= 0) return;
+		if (!s.shadow) s.shadow.reset(new asio::high_resolution_timer(node(s.side)));
+		s.shadow->expires_after(duration(d));
+		s.shadow->async_wait([this](error_code const&) { ++ctx.handlers; });
+		ctx.hit("shadow_timer_armed");
+	}
+
 	void do_write(Side& s, Elem const& e)
 	{
 		int64_t n = 0;
@@ -243,6 +271,7 @@ struct Tcp
 			}
 			else
 			{
+				arm_shadow(s);
 				on_write(s, ec, k, s.gen, true);
 				return;
 			}
@@ -258,6 +287,7 @@ struct Tcp
 			on_write(*sp, ec, k, g, false);
 			pump(*sp);
 		});
+		arm_shadow(s);
 	}
 
 	void on_write(Side& s, error_code const& ec, std::size_t k, int g, bool sync)
@@ -514,6 +544,7 @@ struct Tcp
 				if (!sp->write_outstanding) sp->writer_busy = false;
 				connect_done[sp->conn] = true;
 				connect_ec[sp->conn] = cec;
+				for (auto& a : cattempts) if (a.conn == sp->conn && a.gen == g) a.done = true;
 				if (g != sp->gen) return;
 				if (cec) { sp->writer_dead = true; return; }
 				{
@@ -529,6 +560,7 @@ struct Tcp
 				tcp::endpoint const le = s.sock->local_endpoint(lec);
 				if (!lec) { connector_ports[s.conn].insert(le.port()); s.port = le.port(); }
 			}
+			cattempts.push_back(ConnAttempt{s.conn, s.port, g, false});
 			// a client that does not wait for the connect handler before it writes: the library parks the write
 			// until the connection is established
 			if (plan.c("early_write", 0) && s.port > 0 && !s.write_outstanding && !s.script.empty() && s.script.front().k == Elem::Write
@@ -982,6 +1014,19 @@ struct Tcp
 						fail("tcp.stall.writer", "conn " + std::to_string(c) + " side " + std::to_string(sd) + ": only " + std::to_string(s.accepted)
 							+ " of " + std::to_string(s.offered) + " offered bytes were ever accepted although the simulation is quiescent");
 				}
+		// a connect the acceptor answered completes: the answer is a packet no queue may drop
+		if (c06 && !capped && !livelock)
+			for (auto const& a : cattempts)
+			{
+				Side& s = sides[a.conn][0];
+				if (a.done || a.port <= 0 || s.gen != a.gen || s.closed_by_us || !s.sock->is_open() || ctx.violated) continue;
+				bool answered = false;
+				for (auto const& p : net.all_probes)
+					for (auto const& r : p->log) if (r.type == 2 && r.src_port == a.port) answered = true;
+				if (answered)
+					fail("tcp.connect.stuck", "conn " + std::to_string(a.conn) + ": the acceptor answered the connect from port " + std::to_string(a.port)
+						+ " (its SYN-ACK is on the route) but the connect never completed although the socket is still open");
+			}
 		check_segments();
 		int64_t delivered = 0;
 		for (int c = 0; c < nconn; ++c) for (int sd = 0; sd < 2; ++sd) delivered += sides[c][sd].received;
@@ -1001,7 +1046,7 @@ struct Tcp
 		// teardown: objects before their contexts, contexts before the simulation
 		for (int c = 0; c < nconn; ++c)
 		{
-			for (int sd = 0; sd < 2; ++sd) { sides[c][sd].timer.reset(); sides[c][sd].sock.reset(); sides[c][sd].spare.reset(); }
+			for (int sd = 0; sd < 2; ++sd) { sides[c][sd].timer.reset(); sides[c][sd].shadow.reset(); sides[c][sd].sock.reset(); sides[c][sd].spare.reset(); }
 			acceptors[c].reset();
 		}
 		nodeA.reset(); nodeB.reset();
@@ -1135,10 +1180,15 @@ struct TcpEngine : Engine
 		}
 		p.cfg["accept_variant"] = int64_t(rng.below(3));
 		p.cfg["early_write"] = rng.chance(0.15) ? 1 : 0;
+		p.cfg["shadow_timer"] = rng.chance(0.2) ? 1 : 0;
 		bool const finite = (c06 && rng.chance(0.7)) || (c05 && rng.chance(0.35));
 		int nconn = 1;
 		if (!finite || !c06) nconn = int(rng.range(1, c20 ? 2 : 3));
 		if (c06 && finite) nconn = 1;
+		// C06: a second connection that carries no payload but is closed and made again while the first one is busy: its
+		// handshake shares the queues with the first connection's segments
+		bool const idle_conn = c06 && rng.chance(0.3);
+		if (idle_conn) nconn = 2;
 		p.cfg["conns"] = nconn;
 		int64_t const min_cap = mtu + 40;
 		// routes: 1-3 queue hops each way in total, placed on out / core / in chains
@@ -1214,9 +1264,15 @@ struct TcpEngine : Engine
 		{
 			Op o;
 			double const u = rng.unit();
-			int const c = int(rng.below(uint64_t(nconn)));
+			int const c = idle_conn ? 0 : int(rng.below(uint64_t(nconn)));
 			int sd = int(rng.below(2));
 			if (one_dir_phases) sd = phase_dir;
+			if (idle_conn && rng.chance(0.12))
+			{
+				o.op = "reconnect"; o.a = 1; o.c = rng.chance(0.3) ? 0 : rng.logu(1000, 2000000000);
+				p.ops.push_back(o);
+				continue;
+			}
 			if (ping_pong)
 			{
 				if (u < 0.7)
